@@ -408,6 +408,47 @@ func (x *Exec) wfAstField(st *State, key, ref string, val Term) {
 	}
 }
 
+// wfAstFieldPlain: the same facts over the values read (no rigid field functions: pass 2 rewrites some fields).
+func (x *Exec) wfAstFieldPlain(st *State, key, ref string, val Term) {
+	switch key {
+	case "ast.IfStmt.Body", "ast.ForStmt.Body", "ast.RangeStmt.Body":
+		st.assume(sNot(sEq(val.S, "nilRef")))
+		x.prov[val.S] = "stmtblock"
+	case "ast.SwitchStmt.Body", "ast.TypeSwitchStmt.Body":
+		st.assume(sNot(sEq(val.S, "nilRef")))
+		x.prov[val.S] = "caseblock"
+	case "ast.BlockStmt.List":
+		switch x.prov[ref] {
+		case "stmtblock":
+			st.assume("(StmtList " + val.S + ")")
+		case "caseblock":
+			st.assume("(CaseList " + val.S + ")")
+		}
+	case "ast.CaseClause.Body":
+		st.assume("(StmtList " + val.S + ")")
+	case "ast.IfStmt.Else":
+		st.assume(sOr(sEq(val.S, "nilIface"), sAnd(sNot(sEq("(iref "+val.S+")", "nilRef")), sOr(sEq("(itag "+val.S+")", "K_BlockStmt"), sEq("(itag "+val.S+")", "K_IfStmt")))))
+		lst := x.readField(st, "ast.BlockStmt.List", "Slice", "(iref "+val.S+")")
+		st.assume(sImp(sEq("(itag "+val.S+")", "K_BlockStmt"), "(StmtList "+lst.S+")"))
+	case "ast.ForStmt.Init", "ast.ForStmt.Post", "ast.SwitchStmt.Init", "ast.TypeSwitchStmt.Init", "ast.IfStmt.Init", "ast.TypeSwitchStmt.Assign":
+		// simple statements: absent, or a proper statement that is not a block
+		st.assume(sOr(sEq(val.S, "nilIface"), sAnd("(ProperStmt "+val.S+")", sNot(sEq("(itag "+val.S+")", "K_BlockStmt")))))
+		if key != "ast.IfStmt.Init" && key != "ast.TypeSwitchStmt.Assign" {
+			// A-pass0: pass 0 hoisted every `:=` initialiser of a for/switch/type-switch out of the statement
+			// (and Go's grammar forbids `:=` in a post statement)
+			x.assumed["A-pass0: for/switch/type-switch initialisers reaching pass 2 are not short variable declarations (pass 0 hoisted them)"] = true
+			tok := x.readField(st, "ast.AssignStmt.Tok", "Int", "(iref "+val.S+")")
+			st.assume(sNot(sAnd(sEq("(itag "+val.S+")", "K_AssignStmt"), sEq(tok.S, "TDEFINE"))))
+		}
+	case "ast.ForStmt.Cond", "ast.SwitchStmt.Tag", "ast.IfStmt.Cond":
+		st.assume(sOr(sEq(val.S, "nilIface"), sNot(sEq("(iref "+val.S+")", "nilRef"))))
+	case "ast.ExprStmt.X":
+		st.assume(sAnd(sNot(sEq("(itag "+val.S+")", "0")), sNot(sEq("(iref "+val.S+")", "nilRef"))))
+	case "ast.BranchStmt.Tok":
+		st.assume(sOr(sEq(val.S, "TBREAK"), sEq(val.S, "TCONTINUE"), sEq(val.S, "TGOTO"), sEq(val.S, "TFALLTHROUGH")))
+	}
+}
+
 func (x *Exec) wfAstElem(st *State, sl Term, idx string, val Term) {
 	in := fmt.Sprintf("(and (<= 0 %s) (< %s (s_len %s)))", idx, idx, sl.S)
 	st.assume(sImp(sAnd("(StmtList "+sl.S+")", in), "(ProperStmt "+val.S+")"))
@@ -415,7 +456,24 @@ func (x *Exec) wfAstElem(st *State, sl Term, idx string, val Term) {
 	st.assume(sImp(sAnd("(CommList "+sl.S+")", in), sAnd(sEq("(itag "+val.S+")", "K_CommClause"), "(ClauseStmt "+val.S+")")))
 }
 
+func (x *Exec) wfAstOnly() bool {
+	if x.unit.Spec == nil || x.unit.Pkg.Name != "rewriter" {
+		return false
+	}
+	for _, r := range x.unit.Spec.Reveal {
+		if r == "wf-ast" {
+			return true
+		}
+	}
+	return false
+}
+
 func (x *Exec) rigidLinkField(st *State, key, ref string, val Term) {
+	if strings.HasPrefix(key, "ast.") && x.wfAstOnly() {
+		x.assumed["WfAst: the syntax trees entering pass 2 are well-formed (go/parser output transformed by the pass-0/1 builders): non-nil block bodies; statement lists hold proper statements, switch bodies case clauses; else branches are blocks or ifs; no typed-nil nodes"] = true
+		x.wfAstFieldPlain(st, key, ref, val)
+		return
+	}
 	if !strings.HasPrefix(key, "ast.") || !x.astReadonly() {
 		return
 	}
@@ -434,6 +492,18 @@ func (x *Exec) rigidLinkField(st *State, key, ref string, val Term) {
 }
 
 func (x *Exec) rigidLinkElem(st *State, sl Term, idx string, val Term) {
+	if x.wfAstOnly() && val.Sort == "Iface" {
+		x.wfAstElem(st, sl, idx, val)
+		// a block statement inside a statement list holds a statement list (over the heap, not the rigid functions)
+		k := "wfblk@" + val.S
+		if !st.seenInst[k] {
+			st.seenInst[k] = true
+			lst := x.readField(st, "ast.BlockStmt.List", "Slice", "(iref "+val.S+")")
+			in := fmt.Sprintf("(and (<= 0 %s) (< %s (s_len %s)))", idx, idx, sl.S)
+			st.assume(sImp(sAnd("(StmtList "+sl.S+")", in, sEq("(itag "+val.S+")", "K_BlockStmt")), "(StmtList "+lst.S+")"))
+		}
+		return
+	}
 	if !x.astReadonly() || val.Sort != "Iface" {
 		return
 	}
